@@ -5,7 +5,7 @@
    `oracle` : soundness of the type abstraction judged on the implementation's outputs alone, with the
               specification `member` of Model/Kind.v (the search leg). *)
 From Coq Require Import List NArith ZArith Bool.
-From VRL Require Import Base.Bytes Base.Value Base.Lit Model.ValueCrud Model.Kind Model.KindCrud.
+From VRL Require Import Base.Bytes Base.Value Base.Lit Model.ValueCrud Model.Kind Model.KindCrud Model.KindDomains.
 Import ListNotations.
 
 Inductive case :=
@@ -93,3 +93,18 @@ Definition model_out (c : case) : list kind * bool :=
   | CMerge a b ow _ _ _ _ _ _ _ _ => ([merge a b (if ow then Overwrite else Union)], ow)
   | CSuperset a b v _ _ _ => ([], is_superset a b)
   end.
+
+(* the hypotheses under which Properties/C19.v proves each operation sound; `domain_ok` says: inside
+   that domain the implementation's own outputs are sound (ties the theorems' side conditions to the
+   implementation: an input inside a proved domain on which the implementation is unsound would mean
+   the model and the implementation differ) *)
+Definition in_domain (c : case) : bool :=
+  match c with
+  | CGet k v p _ _ _ _ _ => get_ok k p
+  | CInsert k v p kx x _ _ _ _ _ => ins_ok false k p && wf_value v
+  | CRemove _ _ _ _ _ _ _ _ _ _ => false
+  | CUnion a b v _ _ _ _ => union_compat a b
+  | CMerge a b ow _ _ _ _ _ _ _ _ => negb ow && union_compat a b
+  | CSuperset a b v _ _ _ => no_exact_any a
+  end.
+Definition domain_ok (c : case) : bool := implb (in_domain c) (oracle c).
